@@ -49,6 +49,19 @@ Lexical facts relied upon (from /repo/a2lfile/src/tokenizer.rs and parser.rs)
   * the text after `/begin A2ML` is raw up to the next `/end`; a comment between `/begin` and
     `A2ML` breaks that detection in the library, so none is ever placed there
   * tagged sub-elements may appear in any order; ASAP2_VERSION must be the first element of the file
+
+Constructs that are legal A2L but rejected by the library, and therefore never generated in valid
+documents (both reproduced with the pinned library, see _comment_allowed):
+  * a comment between `/begin` and `A2ML`                      -> tokenizer error
+  * exactly ONE comment between `/end X` and `/begin Y` inside uninterpreted IF_DATA content
+                                                               -> "not followed by a valid tag"
+
+Limitations
+  * identifiers used as references are not resolved against definitions (loading does not need it;
+    GenOptions.p_reuse_name makes a share of them point to defined names)
+  * no `/include`, no UTF-16/32 encodings, no A2ML-conforming (interpreted) IF_DATA content
+  * floats inside uninterpreted IF_DATA are not generated (the library re-reads them as integers)
+  * deviate() on text input supports only "trailing_tokens"
 """
 
 import argparse
@@ -533,7 +546,8 @@ class _Gen(object):
             text = rng.choice(("0", "0.0", "-0", "-0.0", "0e0", ".0", "0.", "00.00", "+0", "0E-5"))
         elif cls == "tiny":
             k = rng.randint(5, max_exp)
-            text = exp(k, "-") if rng.random() < 0.7 or k > 20 else "0.%s%d" % ("0" * k, rng.randint(1, 99))
+            text = exp(k, "-") if rng.random() < 0.7 or k > 20 \
+                else "0.%s%d" % ("0" * k, rng.randint(1, 99))
         elif cls == "huge":
             k = rng.randint(11, max_exp)
             text = exp(k, rng.choice(("", "+"))) if rng.random() < 0.7 or k > 25 \
@@ -1443,4 +1457,120 @@ def _version_fault_hosts(spec, kind, version):
     return hosts
 
 
-# @@APPEND@@
+# ------------------------------------------------------------------------------------------------
+# 10. command line
+
+def _parse_version(s):
+    try:
+        major, minor = s.split(".")
+        v = (int(major), int(minor))
+    except ValueError:
+        v = None
+    if v not in VERSIONS:
+        raise argparse.ArgumentTypeError("version must be one of %s or 'all'" % ", ".join(
+            "%d.%d" % x for x in VERSIONS))
+    return v
+
+
+def _write_doc(out_dir, stem, text, tokens, desc, with_tokens):
+    path = os.path.join(out_dir, stem + ".a2l")
+    with open(path, "wb") as f:
+        f.write(text.encode("utf-8"))
+    if with_tokens and tokens is not None:
+        with open(os.path.join(out_dir, stem + ".tokens.json"), "w", encoding="utf-8") as f:
+            json.dump(tokens, f, ensure_ascii=True)
+    if desc is not None:
+        with open(os.path.join(out_dir, stem + ".desc.json"), "w", encoding="utf-8") as f:
+            json.dump(desc, f, ensure_ascii=True, sort_keys=True)
+    return path
+
+
+def main(argv=None):
+    ap = argparse.ArgumentParser(
+        description="Generate random A2L documents from the grammar JSON.  File i depends only on "
+                    "(--seed, i) and the options, not on --count.")
+    ap.add_argument("--spec", required=True, help="spec JSON of spec_from_generated.py")
+    ap.add_argument("--seed", type=int, default=0)
+    ap.add_argument("--count", type=int, default=10)
+    ap.add_argument("--out", required=True, help="output directory")
+    ap.add_argument("--version", default="1.71", help="1.50 .. 1.71, or 'all' (round robin)")
+    ap.add_argument("--layout", choices=("canonical", "random", "oneline"), default="canonical")
+    ap.add_argument("--crlf", action="store_true")
+    ap.add_argument("--bom", action="store_true")
+    ap.add_argument("--comments", choices=("none", "block-level", "everywhere"), default="none")
+    ap.add_argument("--p-comment", type=float, default=0.2)
+    ap.add_argument("--indent", type=int, default=2)
+    ap.add_argument("--strings", default="plain,empty",
+                    help="comma separated subset of %s, or 'all'" % ",".join(STRING_CLASSES))
+    ap.add_argument("--int-notation", choices=("dec", "hex", "mixed"), default="mixed")
+    ap.add_argument("--p-boundary", type=float, default=0.15)
+    ap.add_argument("--ifdata", choices=("none", "empty", "unknown"), default="none")
+    ap.add_argument("--a2ml", choices=("none", "simple"), default="none")
+    ap.add_argument("--max-depth", type=int, default=8)
+    ap.add_argument("--max-repeat", type=int, default=3)
+    ap.add_argument("--p-optional", type=float, default=0.3)
+    ap.add_argument("--shuffle", action="store_true", help="random order of sub-elements")
+    ap.add_argument("--allow-deprecated", action="store_true")
+    ap.add_argument("--focus", help="element type name that must occur, e.g. Measurement")
+    ap.add_argument("--all-optionals", nargs="?", const="true", choices=("true", "deep"),
+                    help="give the focus element (or, without --focus, every element) all optional "
+                         "sub-elements; 'deep': recursively below the focus")
+    ap.add_argument("--sweep", action="store_true",
+                    help="ignore --count/--focus: one document per entry of sweep_plan() "
+                         "(every element type under every parent, with all optionals)")
+    ap.add_argument("--deviate", choices=DEVIATION_KINDS + ("each",),
+                    help="inject one fault per document; writes NAME.desc.json next to it")
+    ap.add_argument("--tokens", action="store_true", help="also write NAME.tokens.json")
+    ap.add_argument("--prefix", default="doc")
+    args = ap.parse_args(argv)
+
+    spec = load_spec(args.spec)
+    os.makedirs(args.out, exist_ok=True)
+    versions = VERSIONS if args.version == "all" else [_parse_version(args.version)]
+    classes = STRING_CLASSES if args.strings == "all" else tuple(args.strings.split(","))
+    if not set(classes) <= set(STRING_CLASSES):
+        ap.error("--strings: unknown class in %r" % (classes,))
+
+    def none(s):
+        return None if s == "none" else s
+
+    base = GenOptions(allow_deprecated=args.allow_deprecated, max_depth=args.max_depth,
+                      max_repeat=args.max_repeat, p_optional=args.p_optional, focus=args.focus,
+                      all_optionals={None: False, "true": True, "deep": "deep"}[args.all_optionals],
+                      shuffle=args.shuffle, ifdata=none(args.ifdata), a2ml=none(args.a2ml),
+                      int_notation=args.int_notation, p_boundary=args.p_boundary,
+                      string_classes=classes)
+    layout = Layout(mode=args.layout, crlf=args.crlf, comments=none(args.comments),
+                    p_comment=args.p_comment, indent=args.indent, bom=args.bom)
+
+    written = 0
+    if args.sweep:
+        for j, (name, chain, version) in enumerate(sweep_plan(spec, all_parents=True)):
+            rng = random.Random("%d:sweep:%d" % (args.seed, j))
+            opts = base.replace(version=version, focus=name, focus_chain=chain,
+                                all_optionals=base.all_optionals or True)
+            text, tokens = render(gen_tree(spec, rng, opts), rng, layout, spec)
+            _write_doc(args.out, "%s_%04d_%s_in_%s_%d%d" % (
+                args.prefix, j, name, chain[-1], version[0], version[1]), text, tokens, None,
+                args.tokens)
+            written += 1
+    else:
+        for i in range(args.count):
+            rng = random.Random("%d:%d" % (args.seed, i))
+            opts = base.replace(version=versions[i % len(versions)])
+            stem = "%s_%05d" % (args.prefix, i)
+            if args.deviate:
+                kind = DEVIATION_KINDS[i % len(DEVIATION_KINDS)] if args.deviate == "each" \
+                    else args.deviate
+                dev = gen_deviation(spec, rng, kind, opts, layout)
+                _write_doc(args.out, stem + "_" + kind, dev.text, dev.tokens, dev.desc, args.tokens)
+            else:
+                text, tokens = render(gen_tree(spec, rng, opts), rng, layout, spec)
+                _write_doc(args.out, stem, text, tokens, None, args.tokens)
+            written += 1
+    sys.stderr.write("docgen: wrote %d document(s) to %s\n" % (written, args.out))
+    return 0
+
+
+if __name__ == "__main__":
+    sys.exit(main())
